@@ -47,22 +47,38 @@ def extract_one(item):
         out.update(status='exception', exc='{}: {}'.format(type(ex).__name__, str(ex)[:200]))
         return out
     v = numpy.asarray(v)
-    vals = [tofrac(x) for x in v.ravel()] if v.dtype.kind in 'fiub' else None
-    if vals is None or any(x is None for x in vals):
-        out.update(status='inexact')
+    cx = nodes[-1]['dt'] == 'c'
+    if cx != (v.dtype.kind == 'c'):
+        out.update(status='exception', exc='dtype: sparse values have dtype {} for a root of dtype {}'.format(v.dtype, nodes[-1]['dt']))
         return out
-    out['coo'] = dict(values=vals, indices=[[int(i) for i in numpy.asarray(ix).ravel()] for ix in idx], shape=[int(n) for n in sh])
-    out['coo_value_ndim'] = v.ndim
-    out['csr'] = dict(values=[], rowptr=[0], colidx=[], ncols=0, has=False)
+    # a complex root is handed to TLC as two real observations (real parts / imaginary parts of the recorded values),
+    # each judged against the model value of Real(root) / Imag(root): 'coo', 'csr' and 'coo_im', 'csr_im'
+    parts = [('', numpy.real), ('_im', numpy.imag)] if cx else [('', lambda a: a)]
+    csr = None
     if root.ndim == 2:
         try:
-            cv, rowptr, colidx, ncols = ev.eval_once(ev.as_csr(root), arguments=args)
-            cvals = [tofrac(x) for x in numpy.asarray(cv).ravel()]
-            if all(x is not None for x in cvals):
-                out['csr'] = dict(values=cvals, rowptr=[int(i) for i in rowptr], colidx=[int(i) for i in colidx], ncols=int(ncols), has=True)
+            csr = ev.eval_once(ev.as_csr(root), arguments=args)
         except Exception as ex:
             out.update(status='exception', exc='as_csr {}: {}'.format(type(ex).__name__, str(ex)[:200]))
+    for sfx, part in parts:
+        vals = [tofrac(x) for x in part(v).ravel()] if v.dtype.kind in 'fiubc' else None
+        if vals is None or any(x is None for x in vals):
+            out.update(status='inexact')
+            return out
+        out['coo' + sfx] = dict(values=vals, indices=[[int(i) for i in numpy.asarray(ix).ravel()] for ix in idx], shape=[int(n) for n in sh])
+        out['csr' + sfx] = dict(values=[], rowptr=[0], colidx=[], ncols=0, has=False)
+        if csr is not None:
+            cv, rowptr, colidx, ncols = csr
+            cvals = [tofrac(x) for x in part(numpy.asarray(cv)).ravel()]
+            if all(x is not None for x in cvals):
+                out['csr' + sfx] = dict(values=cvals, rowptr=[int(i) for i in rowptr], colidx=[int(i) for i in colidx], ncols=int(ncols), has=True)
+    out['coo_value_ndim'] = v.ndim
     return out
+
+
+def part_program(p, op):
+    'the program Real(p) / Imag(p) (model side of a complex observation)'
+    return [dict(op=n['op'], d=n['d'], p=n['p'], sh=n['sh'], dt=n['dt']) for n in p] + [dict(op=op, d=[len(p)], p=[], sh=p[-1]['sh'], dt='f')]
 
 
 def run(rep):
@@ -70,13 +86,21 @@ def run(rep):
     quick = rep.tier == 'quick'
     k = 300 if quick else 4000
     fam = dict(Ops=SPARSE_OPS, LeafSet='{1, 2, 4, 8, 13, 14, 15, 20, 22, 23, 25}', MaxOps=5, MaxNodes=10, MaxLeaves=4)
+    cxfam = dict(Ops='{"Inflate","Diagonalize","Multiply","Add","Ravel","Unravel","LoopSum","InsertAxis","Transpose","Take","Sum","FloatToComplex","Conjugate","Negative","TakeDiag","LoopConcat","Real","Imag"}',
+                 LeafSet='{1, 2, 13, 14, 15, 20, 22, 41, 43, 44, 48, 49, 50}', MaxOps=5, MaxNodes=10, MaxLeaves=4)
+    # element dependent block sizes: Inflate / Take / InsertAxis with loop dependent lengths under LoopSum / LoopConcat
+    dynfam = dict(Ops='{"RangeN","InsertAxisN","LoopConcat","LoopSum","Take","Inflate","Multiply","Add","IntToFloat","Sum","InsertAxis","Diagonalize","Transpose"}',
+                  LeafSet='{1, 2, 4, 8, 13, 20, 22, 23, 39}', MaxOps=5, MaxNodes=9, MaxLeaves=4)
     sel = exprs.corpus(rep, rng, 'c05', k, quick=quick, need_arg=False, extra=[('sparse', fam, 200 if quick else 3000)])
+    for ps in exprs.extended(rep, rng, 'c05-ext', ['cxsparse', 'dynsparse', 'einsum'], k // 10, quick=quick, families=dict(cxsparse=cxfam, dynsparse=dynfam)).values():
+        sel += ps
     rep.lap('generated')
     items = [(p, i % len(dag.ENVS)) for i, p in enumerate(sel)]
     outs = exprs.pmap(extract_one, items)
     rep.lap('extracted')
     jobs = []
     owners = []
+    real = []     # the TLC jobs (one per real-valued observation; two for a complex root)
     for (p, e), o in zip(items, outs):
         if 'harness_error' in o:
             raise RuntimeError(o['harness_error'])
@@ -88,12 +112,15 @@ def run(rep):
             owners.append((p, e, o))
             jobs.append(None)
             continue
-        nl = dag.nloops(p)
-        jobs.append(dict(id=len([j for j in jobs if j is not None]), N=[dict(op=n['op'], d=n['d'], p=n['p'], sh=n['sh'], dt=n['dt']) for n in p],
-                         argsh=[dag.ARGSH[a] for a in sorted(dag.ARGSH)], args=[dag.ENVS[e][a] for a in sorted(dag.ARGSH)], node=len(p),
-                         coo=o['coo'], csr=o['csr']))
+        cx = p[-1]['dt'] == 'c'
+        job = []
+        for sfx, op in ((('', 'Real'), ('_im', 'Imag')) if cx else (('', None),)):
+            N = part_program(p, op) if cx else [dict(op=n['op'], d=n['d'], p=n['p'], sh=n['sh'], dt=n['dt']) for n in p]
+            job.append(dict(id=len(real), N=N, argsh=[dag.ARGSH[a] for a in sorted(dag.ARGSH)], args=[dag.ENVS[e][a] for a in sorted(dag.ARGSH)], node=len(N),
+                            coo=o['coo' + sfx], csr=o['csr' + sfx]))
+            real.append(job[-1])
+        jobs.append(job)
         owners.append((p, e, o))
-    real = [j for j in jobs if j is not None]
     results, stats = dag.run_jobs('SparseCheck', real, 'c05-check')
     for st in stats:
         rep.add_tlc(st)
@@ -118,21 +145,24 @@ def run(rep):
             else:
                 rep.skip('extraction raised on a model-undefined program')
             continue
-        r = next(ri)
-        if r is None:
+        rs = [next(ri) for _ in j]
+        if any(r is None for r in rs):
             rep.skip('TLC could not evaluate')
             continue
         bad = False
-        for kind in ('coo', 'csr'):
-            v = r[kind]
-            if v in ('ok', 'absent'):
-                continue
-            if v == 'undef':
-                rep.skip('model value undefined')
-                continue
-            bad = True
-            rep.violation('{}:{}:{}'.format(kind, v, exprs.skeleton(p)[-60:] if False else p[-1]['op']), '{} data violates clause "{}"'.format(kind.upper(), v),
-                          dict(program=p, env=e, data=o.get(kind)))
+        for r, sfx in zip(rs, ('', '_im')):
+            for kind in ('coo', 'csr'):
+                v = r[kind]
+                if v in ('ok', 'absent'):
+                    continue
+                if v == 'undef':
+                    rep.skip('model value undefined')
+                    continue
+                if bad:
+                    continue    # one violation per program (real and imaginary observation share the root cause)
+                bad = True
+                rep.violation('{}:{}:{}'.format(kind, v, p[-1]['op']), '{} data{} violates clause "{}"'.format(kind.upper(), ' (imaginary parts)' if sfx else '', v),
+                              dict(program=p, env=e, data=o.get(kind + sfx)))
         if not bad:
             rep.traces += 1
     for (p, e, o) in owners[:2]:
